@@ -42,6 +42,9 @@ type c19API struct {
 	calls    int
 	crashAt  int // the crashAt-th API call is the last thing that happens (0 = no crash)
 	faultsOK bool
+	// an object put into the API by a racing writer that this store has neither overwritten nor deleted yet: this
+	// store never knew it, so its DeleteUpstream (which deletes what it knows) says nothing about it
+	racerPending bool
 }
 
 func (a *c19API) enter() {
@@ -77,6 +80,7 @@ func (c *c19RLC) Create(ctx context.Context, o *proxyv1alpha1.RateLimitCondition
 	stored := o.DeepCopy()
 	stored.ResourceVersion = "1"
 	c.api.objects[o.Name] = stored
+	c.api.racerPending = false
 	c.api.leave()
 	return stored.DeepCopy(), nil
 }
@@ -88,6 +92,17 @@ func (c *c19RLC) Update(ctx context.Context, o *proxyv1alpha1.RateLimitCondition
 		return nil, errors.New("transient update error")
 	}
 	if _, ok := c.api.objects[o.Name]; !ok {
+		// a racing writer (the previous holder's last flush during a hand-over) may create the object right after this
+		// answer: the caller's Create then meets AlreadyExists with somebody else's content in the API
+		if c.api.faultsOK && nondetBool("racingWriterCreatesAfterNotFound") {
+			racer := o.DeepCopy()
+			if len(racer.Spec.LimitItemConfigurations) == 1 && racer.Spec.LimitItemConfigurations[0].MaxRequestsInflight != nil {
+				racer.Spec.LimitItemConfigurations[0].MaxRequestsInflight.Max = 10
+			}
+			racer.ResourceVersion = "1"
+			c.api.objects[o.Name] = racer
+			c.api.racerPending = true
+		}
 		c.api.leave()
 		return nil, apierrors.NewNotFound(proxyv1alpha1.Resource("ratelimitconditions"), o.Name)
 	}
@@ -98,6 +113,7 @@ func (c *c19RLC) Update(ctx context.Context, o *proxyv1alpha1.RateLimitCondition
 	stored := o.DeepCopy()
 	stored.ResourceVersion = "2"
 	c.api.objects[o.Name] = stored
+	c.api.racerPending = false
 	c.api.leave()
 	return stored.DeepCopy(), nil
 }
@@ -113,6 +129,7 @@ func (c *c19RLC) Delete(ctx context.Context, name string, opts v1.DeleteOptions)
 		return apierrors.NewNotFound(proxyv1alpha1.Resource("ratelimitconditions"), name)
 	}
 	delete(c.api.objects, name)
+	c.api.racerPending = false
 	c.api.leave()
 	return nil
 }
@@ -186,7 +203,7 @@ func c19Quota(c *proxyv1alpha1.RateLimitCondition) int32 {
 // Every Save acknowledged before the crash is in the new store with the acknowledged content (unless a later
 // acknowledged Delete removed it); every acknowledged Delete stays deleted; conditions of another shard are refused
 // before any API call and never loaded.
-// verif:bounds k = 1..2 (quick) / 3 (thorough) operations from {Save(fresh object, quota q), Get + change in place + Save(same object), Delete, DeleteUpstream} on one condition of shard 0, symbolic quotas; an object of shard 1 pre-exists in the API; faults: transient error on create/update/delete, conflict on update, at every call; crash index 0..6
+// verif:bounds k = 1..2 (quick) / 3 (thorough) operations from {Save(fresh object, quota q), Get + change in place + Save(same object), Delete, DeleteUpstream} on one condition of shard 0, symbolic quotas; an object of shard 1 pre-exists in the API; faults: transient error on create/update/delete, conflict on update, a racing writer creating the object right after an Update was answered NotFound, at every call; crash index 0..6
 func HarnessC19WriteThrough() {
 	api := &c19API{objects: map[string]*proxyv1alpha1.RateLimitCondition{}, faultsOK: true}
 	foreign := c19Cond(1, 77)
@@ -256,7 +273,7 @@ func HarnessC19WriteThrough() {
 				}
 			case 2:
 				expect = 0
-				if err := s.DeleteUpstream("up-a"); err == nil {
+				if err := s.DeleteUpstream("up-a"); err == nil && !api.racerPending {
 					expect = 2
 				}
 			case 3:
